@@ -50,9 +50,13 @@ fn gen_coord(src: &mut Src, fine: &mut bool) -> LefDecimal {
 }
 fn gen_pt(src: &mut Src, fine: &mut bool) -> LefPoint {
     let x = gen_coord(src, fine);
+    // x and y distinct (a swap is then visible), except one point in ten, which lies on the diagonal
+    if src.prob(1, 10) {
+        return LefPoint::new(x, x);
+    }
     let mut y = gen_coord(src, fine);
     if x == y {
-        y = y + LefDecimal::new(1, 0); // x and y always distinct
+        y = y + LefDecimal::new(1, 0);
     }
     LefPoint::new(x, y)
 }
